@@ -118,6 +118,13 @@ fn classify(case: &Case, obs: &mut Obs) {
         Kern::Poly(..) => "kernel_polynomial",
     });
     obs.class_if(matches!(case.kernel, Kern::Poly(_, d) if d.fract() != 0.0), "poly_fractional_degree");
+    obs.class(crate::mem::mem_name(case.mem));
+    obs.class_if(case.qmem % crate::mem::MEMS != 0 && case.qmem % crate::mem::MEMS != 2, "query_batch_non_standard_layout");
+    let p = case.x.first().map(|r| r.len()).unwrap_or(0);
+    obs.class_if(
+        case.kernel == Kern::Linear && p >= 2 && !matches!(case.mem % crate::mem::MEMS, 0 | 2),
+        "linear_kernel_non_standard_layout",
+    );
     obs.class(match case.task {
         Task::CSvc { .. } => "task_c_svc",
         Task::NuSvc { .. } => "task_nu_svc",
